@@ -289,6 +289,13 @@ func c05Units(tier string) []*Unit {
 		)
 	}
 	var us []*Unit
+	for _, m := range []string{"checksum", "timestamp"} {
+		d := 4
+		if tier == "thorough" {
+			d = 6
+		}
+		us = append(us, c05LabelUnit(m, d))
+	}
 	for _, sh := range shapes {
 		sh := sh
 		depth := 3
@@ -324,4 +331,94 @@ func c05Units(tier string) []*Unit {
 		}})
 	}
 	return us
+}
+
+// One task definition with a templated label ("build-{{.COMP}}") and sources that depend on the
+// same variable is how a Taskfile keeps one fingerprint per component. Histories over
+// {run a, run b, edit a, edit b}: a component's run is skipped exactly when that component's
+// own sources are unchanged since that component's last successful run.
+type c05LabelModel struct {
+	Last map[string]string // component -> source fingerprint at its last successful run
+}
+
+func (m *c05LabelModel) Key() string {
+	return fmt.Sprintf("a=%s,b=%s", m.Last["a"], m.Last["b"])
+}
+func (m *c05LabelModel) Clone() hModel {
+	c := &c05LabelModel{Last: map[string]string{}}
+	for k, v := range m.Last {
+		c.Last[k] = v
+	}
+	return c
+}
+
+func c05LabelUnit(method string, depth int) *Unit {
+	name := fmt.Sprintf("hist/%s/templated-label-per-component/depth%d", method, depth)
+	tf := "version: '3'\ntasks:\n  build:\n    label: 'build-{{.COMP}}'\n    method: " + method + "\n    sources: ['{{.COMP}}/in.txt']\n    cmds:\n      - 'echo run-{{.COMP}} >> trace.log'\n"
+	fpOfComp := func(dir, comp string) string {
+		p := filepath.Join(dir, comp, "in.txt")
+		if method == "checksum" {
+			b, _ := os.ReadFile(p)
+			return strings.TrimSpace(string(b))
+		}
+		st, err := os.Stat(p)
+		if err != nil {
+			return "missing"
+		}
+		return fmt.Sprint(st.ModTime().UnixNano())
+	}
+	var evs []hEvent
+	for _, comp := range []string{"a", "b"} {
+		comp := comp
+		evs = append(evs, hEvent{Name: "edit-" + comp, Apply: func(dir string, m hModel, _ []string) []vlab.Violation {
+			p := filepath.Join(dir, comp, "in.txt")
+			b, _ := os.ReadFile(p)
+			if strings.TrimSpace(string(b)) == "1" {
+				os.WriteFile(p, []byte("2\n"), 0o644)
+			} else {
+				os.WriteFile(p, []byte("1\n"), 0o644)
+			}
+			return nil
+		}})
+		evs = append(evs, hEvent{Name: "run-" + comp, Apply: func(dir string, hm hModel, hist []string) []vlab.Violation {
+			m := hm.(*c05LabelModel)
+			var out []vlab.Violation
+			cur := fpOfComp(dir, comp)
+			before, _ := os.ReadFile(filepath.Join(dir, "trace.log"))
+			_, se, rc := RunCLI(dir, nil, "", "build", "COMP="+comp)
+			after, _ := os.ReadFile(filepath.Join(dir, "trace.log"))
+			ran := strings.Contains(string(after[len(before):]), "run-"+comp)
+			last, ever := m.Last[comp]
+			wantRun := !ever || last != cur
+			switch {
+			case rc != 0:
+				out = append(out, vlab.V("C05", "run_failed", method+":templated_label", fmt.Sprintf("status %d (%s) after %v", rc, firstN(se, 120), hist)))
+			case ran && !wantRun:
+				out = append(out, vlab.V("C05", "not_idempotent", method+":templated_label", fmt.Sprintf("component %s ran again although its sources are unchanged since its own last successful run (history %v)", comp, hist)))
+			case !ran && wantRun:
+				why := "changed since its last successful run"
+				if !ever {
+					why = "never built"
+				}
+				out = append(out, vlab.V("C05", "change_not_detected", method+":templated_label:"+map[bool]string{true: "changed", false: "never_built"}[ever], fmt.Sprintf("component %s was reported up to date although it was %s (history %v)", comp, why, hist)))
+			}
+			if rc == 0 && ran {
+				m.Last[comp] = cur
+			}
+			return out
+		}})
+	}
+	return &Unit{Name: name, Weight: 3, Custom: func(u *Unit, dir string, deadline time.Time) *vlab.UnitResult {
+		cfg := hConfig{Name: name, Depth: depth, Events: evs,
+			Ignore: func(p string) bool { return p == "trace.log" },
+			Init: func(dir string) hModel {
+				for rel, c := range map[string]string{"Taskfile.yml": tf, "a/in.txt": "1\n", "b/in.txt": "1\n"} {
+					p := filepath.Join(dir, rel)
+					os.MkdirAll(filepath.Dir(p), 0o755)
+					os.WriteFile(p, []byte(c), 0o644)
+				}
+				return &c05LabelModel{Last: map[string]string{}}
+			}}
+		return runHist(cfg, dir, deadline)
+	}}
 }
